@@ -528,3 +528,62 @@ pub fn run_probe(kind: u8, depth: u8, hold_point: u8) -> Value {
     "same_object": r1.is_ok() && r1 == r2,
   })
 }
+
+
+// ---------------------------------------------------------------------------------------------
+// free-running first-use stress (SAMPLED, corroboration only): many real threads released
+// together make the first calls of one process, for distinct depths and for shared depths; no
+// hook is installed.  It reaches windows that contain no hook point (which the exhaustive
+// exploration cannot split); it is not part of the exhaustive claim.
+// ---------------------------------------------------------------------------------------------
+
+pub fn run_stress(round_seed: u64) -> Value {
+  use std::sync::{Arc, Barrier};
+  let nthreads = 15usize;
+  let mut problems: Vec<String> = vec![];
+  // round 1: distinct depths; round 2: three threads per depth (other depths)
+  for round in 0..2usize {
+    for kind in [0u8, 2, 1] {
+      let depths: Vec<u8> = (0..nthreads)
+        .map(|t| {
+          let base = if round == 0 { t } else { 15 + t / 3 };
+          (((base as u64 + round_seed) % 15) as u8 + if round == 0 { 0 } else { 15 }).min(29).max(if kind == 2 { 1 } else { 0 })
+        })
+        .collect();
+      let barrier = Arc::new(Barrier::new(nthreads));
+      let handles: Vec<_> = depths
+        .iter()
+        .map(|&d| {
+          let b = barrier.clone();
+          std::thread::spawn(move || {
+            b.wait();
+            let c = Call { kind, depth: d };
+            std::panic::catch_unwind(|| (do_call(&c), do_call(&c))).map_err(|_| "panic".to_string())
+          })
+        })
+        .collect();
+      let results: Vec<Result<(usize, usize), String>> = handles.into_iter().map(|h| h.join().unwrap_or(Err("panic".to_string()))).collect();
+      for (t, r) in results.iter().enumerate() {
+        let d = depths[t];
+        let c = Call { kind, depth: d };
+        // the same call made afterwards, alone
+        let later = std::panic::catch_unwind(|| do_call(&c)).map_err(|_| "panic".to_string());
+        match (r, &later) {
+          (Ok((a, b)), Ok(l)) if a == b && a == l => {}
+          _ => problems.push(format!("kind {} depth {}: racing first calls {:?}, later call {:?}", kind, d, r, later)),
+        }
+        if kind == 0 {
+          let ok = std::panic::catch_unwind(|| {
+            let l = cdshealpix::nested::get_or_create(d);
+            l.depth() == d && l.n_hash() == 12u64 << (2 * d as u32)
+          })
+          .unwrap_or(false);
+          if !ok {
+            problems.push(format!("layer of depth {} is not the layer of that depth (or panics)", d));
+          }
+        }
+      }
+    }
+  }
+  json!({"stress": "done", "problems": problems})
+}
